@@ -259,12 +259,9 @@ MaxConcurrency or with a MaxConcurrency of at least the number of branches (one 
   (d) three handler lemmas: the end of a branch that completes a batch (`advance_hold` publishing the re-entry event — today
       it is stated under `batch_not_done`), the delivery of the re-entry event (as `flat_arm`), its deferred handler
       (`flat_launch` for a later batch, appending to the branch events that are there).
-  One more thing is in the way: when a crash has wiped the join and the LAST batch is refilled before the
-  earlier held events are redelivered, the quirk-free model publishes a re-entry event for a batch beyond the last one
-  (`from_ + mc = width`; the example "a re-entry event beyond the last batch" below).  It is harmless — it launches nothing,
-  or is dropped when it is delivered after the end — but it is still in the event queue when the terminal notification is
-  published, which `Cons2.psi1` (notification ⇒ empty event queue) excludes: either the model gets the guard
-  `from_ + mc < width` (all proofs here still build with it) or `psi1` is weakened to "only such events are left".
+  (The quirk-free model re-enters a Map state only for a batch that exists, `from_ + mc < width`: when a crash has wiped the
+  join and the LAST batch is refilled before the earlier held events are redelivered nothing is published — the example "no
+  re-entry event beyond the last batch" below; `Cons2.psi1` needs that.)
 * fan-out states nested in branches (the crash-safe hand-over of a nested join's held events to the enclosing join), and
 * synchronous child executions (a second execution whose terminal answer is a message of the reply queue). -/
 theorem crash_safe_partial (sk : Sk) (hsk : sk.flat = true) : CrashSafe sk :=
@@ -418,16 +415,19 @@ example : (Asl.Crash.run Asl.Crash.Quirks.none
       [(.ev 0, none), (.tm 0, some 1), (.ev 0, none), (.tm 0, none), (.ev 1, some 0), (.ev 1, none), (.crash, none),
        (.ev 2, none), (.ev 1, none)]).isSome = true := by
   decide +kernel
-/-- a re-entry event beyond the last batch (see `crash_safe_partial`): a Map with MaxConcurrency 1 over two items, the engine
-dies once the second item is launched, the second item ends first: a re-entry event for slot 2 of 2 is published; when the
-first item's event has been redelivered the execution has ended (one notification) with that event still queued; the run ends
-all the same -/
+/-- no re-entry event beyond the last batch: a Map with MaxConcurrency 1 over two items, the engine dies once the second item is
+launched, the second item ends first (the LAST batch is full while the join is not): the crash-safe protocol publishes
+nothing (`from_ + mc < width` fails), and when the first item's event has been redelivered the execution has ended with an
+empty event queue; the engine's rule (`batchRelaunched`, C04-F7) re-enters for slot 2 of 2 and ends with that event queued -/
 example :
     ((Asl.Crash.run Asl.Crash.Quirks.none (Asl.Crash.init (.par 1 (.cons (.step .done) (.cons (.step .done) .nil)) .done))
       ([Asl.Crash.Op.ev 0, .tm 0, .ev 1, .ev 2, .tm 2, .crash, .ev 3, .ev 1].map (fun o => (o, none)))).map
-        (fun c => (c.evq.map (fun m => match m.kind with | .reenter _ s _ _ => some s | _ => none), c.notes,
-          (Asl.Crash.drain Asl.Crash.Quirks.none 100 c).evq.length, (Asl.Crash.drain Asl.Crash.Quirks.none 100 c).notes))) =
-      some ([some 2], 1, 0, 1) := by
+        (fun c => (c.evq.map (fun m => match m.kind with | .reenter _ s _ _ => some s | _ => none), c.notes))) =
+      some ([], 1) ∧
+    ((Asl.Crash.run { batchRelaunched := true } (Asl.Crash.init (.par 1 (.cons (.step .done) (.cons (.step .done) .nil)) .done))
+      ([Asl.Crash.Op.ev 0, .tm 0, .ev 1, .ev 2, .tm 2, .crash, .ev 3, .ev 1].map (fun o => (o, none)))).map
+        (fun c => (c.evq.map (fun m => match m.kind with | .reenter _ s _ _ => some s | _ => none), c.notes))) =
+      some ([some 2], 1) := by
   decide +kernel
 /-- beyond the proved class, by computation: a Map with MaxConcurrency 1 over two items (Task, then step) with a crash
 after the second batch was started — the crash-safe protocol does not start the batch again (two requests), the engine's
